@@ -73,6 +73,8 @@ pub struct Names {
     /// allocations made by a walk that saw a writer inside a node in cooldown
     lockstep_allocs: usize,
     allocs: usize,
+    /// (worker, node) → writer reservations currently held (its fetch_add / fetch_sub on active_writers)
+    reserved: HashMap<(usize, usize), i64>,
 }
 
 pub static NAMES: Mutex<Option<Names>> = Mutex::new(None);
@@ -253,6 +255,24 @@ fn after_hook(e: &Event, val: usize, ok: bool) {
             if site.ends_with("Node::check_cooldown#1") && val > 0 {
                 n.saw_writer.insert(w, true);
             }
+        }
+        match k {
+            Kind::F(j, Field::Writers) => {
+                if e.op == AOp::FetchAdd { *n.reserved.entry((w, j)).or_insert(0) += 1; }
+                if e.op == AOp::FetchSub { *n.reserved.entry((w, j)).or_insert(0) -= 1; }
+            }
+            // the helping words of a node are touched only by its owner, or by a writer that is
+            // counted in active_writers while it digs through the node (cooldown / ABA protection)
+            Kind::F(j, Field::Control) | Kind::F(j, Field::ActiveAddr) | Kind::F(j, Field::SpaceOffer) => {
+                let counted = n.reserved.get(&(w, j)).copied().unwrap_or(0) > 0;
+                if n.owner.get(&j) != Some(&w) && !counted {
+                    crate::varc::violation(format!(
+                        "cooldown-protocol: t{} accesses {} at {} without owning n{} and without being counted in its active_writers",
+                        w, loc, site, j
+                    ));
+                }
+            }
+            _ => {}
         }
         if let Kind::F(j, Field::InUse) = k {
             if site.ends_with("Node::get#0") && ok {
@@ -849,6 +869,7 @@ where
         n.saw_writer.clear();
         n.lockstep_allocs = 0;
         n.allocs = 0;
+        n.reserved.clear();
         n.head = verif::list_head_addr();
     });
     verif::set_hooks(Some(before_hook), Some(after_hook));
